@@ -141,6 +141,13 @@ class SourceDataWrapper(ABC):
             raise ValueError(f"No dataset '{item}' found in the source data")
         return data[self._from_idx:self._to_idx]
 
+    def _check_equal_numbers_of_rows(self) -> None:
+        """Check that all data sets to be included have the same number of rows (as required - see __init__)."""
+
+        n_rows = {key: self._data_source[loc].shape[0] for key, loc in self._mapping.items()}
+        if len(set(n_rows.values())) > 1:
+            raise ValueError(f"All data sets of a frame must have the same number of rows; got {n_rows}")
+
     def load_chunk(self, start: int, stop: Union[int, None]) -> np.ndarray:
         """Copy a chunk of the source data into a structured numpy array of the pre-determined dtype.
 
@@ -189,6 +196,8 @@ class SourceDataWrapper(ABC):
         Yields:
             Structured numpy.ndarray objects with the consecutive chunks of the source data.
         """
+
+        self._check_equal_numbers_of_rows()
 
         if chunk_rows is None:
             chunk_rows = self._n_rows
